@@ -128,55 +128,67 @@ func CheckC11(r *Report) {
 	chunk := 1 << 12
 	nch := (n + chunk - 1) / chunk
 	supp := [6]string{"P", "Y", "I", "C", "H", "Amber"}
-	Parallel(nch, 16, func(ci int) {
-		if r.TooMany() {
-			return
-		}
-		lo, hi := ci*chunk, (ci+1)*chunk
-		if hi > n {
-			hi = n
-		}
-		for idx := lo; idx < hi; idx++ {
-			c := spec.V4ClassFromIndex(idx)
-			for variant := 0; variant < 2; variant++ {
-				if variant == 1 && !thorough && idx%4 != 0 {
-					continue
+	for pass := 0; pass < 2; pass++ {
+		pass := pass
+		Parallel(nch, 16, func(ci int) {
+			if r.TooMany() {
+				return
+			}
+			if pass == 1 {
+				ci = nch - 1 - ci // second pass: descending order (a cache filled in the other order answers differently)
+			}
+			lo, hi := ci*chunk, (ci+1)*chunk
+			if hi > n {
+				hi = n
+			}
+			for k := lo; k < hi; k++ {
+				idx := k
+				if pass == 1 {
+					idx = hi - 1 - (k - lo)
 				}
-				rp := CanonRepr(c)
-				if variant == 1 {
-					for m := 0; m < 11; m++ {
-						base := spec.V4.Metrics[spec.V4.Index(v4Base[m])].Values
-						rp.Base[m] = base[(idx+m)%len(base)]
-						rp.Mod[m] = spec.V4SevNames[m][c[m]]
+				c := spec.V4ClassFromIndex(idx)
+				for variant := 0; variant < 2; variant++ {
+					if variant == 1 && (pass == 1 || (!thorough && idx%4 != 0)) {
+						continue
 					}
-					rp.Supp = supp
-				}
-				o, err := rp.Object()
-				if err != nil {
-					continue
-				}
-				states.Add(idx, 1)
-				vals.Add(idx, 1)
-				s, p := v4ImplScore(&o)
-				key, obs := "", ""
-				if p != nil {
-					key, obs = "panic", fmt.Sprint(p)
-				} else if why := wellFormedScore(s, 0, 100); why != "" {
-					key, obs = "malformed", why
-				} else if rs, err := gocvss40.Rating(s); err != nil || rs == "" {
-					key, obs = "rating-refuses", fmt.Sprintf("Rating(%v) = %q, %v", s, rs, err)
-				}
-				if key != "" {
-					r.Violation(Case{Kind: "score-format", Key: "v4.0/Score/" + key, Expected: "finite one-decimal score in [0,10] accepted by Rating", Observed: obs + " on " + o.Vector(),
-						Args: map[string]any{"version": "4.0", "vector": o.Vector(), "method": "Score"}}, nil)
+					rp := CanonRepr(c)
+					if variant == 1 {
+						for m := 0; m < 11; m++ {
+							base := spec.V4.Metrics[spec.V4.Index(v4Base[m])].Values
+							rp.Base[m] = base[(idx+m)%len(base)]
+							rp.Mod[m] = spec.V4SevNames[m][c[m]]
+						}
+						rp.Supp = supp
+					}
+					o, err := rp.Object()
+					if err != nil {
+						continue
+					}
+					states.Add(idx, 1)
+					vals.Add(idx, 1)
+					s, p := v4ImplScore(&o)
+					key, obs := "", ""
+					if p != nil {
+						key, obs = "panic", fmt.Sprint(p)
+					} else if why := wellFormedScore(s, 0, 100); why != "" {
+						key, obs = "malformed", why
+					} else if rs, err := gocvss40.Rating(s); err != nil || rs == "" {
+						key, obs = "rating-refuses", fmt.Sprintf("Rating(%v) = %q, %v", s, rs, err)
+					}
+					if key != "" {
+						r.Violation(Case{Kind: "score-format", Key: "v4.0/Score/" + key, Expected: "finite one-decimal score in [0,10] accepted by Rating", Observed: obs + " on " + o.Vector(),
+							Args: map[string]any{"version": "4.0", "vector": o.Vector(), "method": "Score"}}, nil)
+					}
 				}
 			}
-		}
-	})
+		})
+	}
 	r.States.Store(states.Load())
 	r.Transitions.Store(vals.Load())
+	// fresh-process tables in ascending and in descending order (what a cache filled in another order returns)
+	coldFormatCheck(r)
 	r.Traces.Store(states.Load())
-	r.Evaluations.Store(vals.Load())
+	r.Evaluations.Store(r.Transitions.Load())
 	r.Distinct.Store(states.Load())
 	r.Bound = "v2 complete (139,968,000); v3.0/v3.1 all 16,588,800 classes canonical + all-overridden representations; v4 all 15,116,544 classes canonical + overridden/supplemental representation (every 4th class in quick); other representations are tied to these by C10"
 	r.Exhaustive = false
@@ -394,6 +406,43 @@ func CheckC12(r *Report) {
 		return
 	}
 	r.Rule = "E3 scorespace: the implementation's own score tables over the effective classes (v4: 15,116,544; v3.1: 16,588,800 x 3 scores; v3.0 and v2: base x temporal classes, 2 scores) and the full one-metric neighbourhood relation: for every state and every strictly more severe value of every metric, score(more severe) >= score; oracle independent of the C03-C05 models; transitions = ordered pairs compared; distinct_nontrivial = pairs whose score strictly increases"
+	// cold start: the zero-value object itself and its one-step neighbours are scored before anything else
+	// (a cache whose empty slot answers for one particular vector breaks monotonicity only on a cold process)
+	{
+		var z CVSS40T
+		s40 := NewOS(I40, r)
+		if a, err := s40.ReadAll(z); err == nil {
+			c0 := v4ClassOf(a)
+			score := func(o CVSS40T) (int, string) {
+				s, _ := v4ImplScore(&o)
+				k, _ := score10(s)
+				return k, o.Vector()
+			}
+			k0, v0 := score(z)
+			for m := 0; m < 11; m++ {
+				for v, name := range spec.V4SevNames[m] {
+					if v == int(c0[m]) || name == "S" {
+						continue
+					}
+					o := z
+					if o.Set(v4Base[m], name) != nil {
+						continue
+					}
+					k1, v1 := score(o)
+					r.Transitions.Add(1)
+					if (v < int(c0[m]) && k1 < k0) || (v > int(c0[m]) && k1 > k0) {
+						less, more := v0, v1
+						if v > int(c0[m]) {
+							less, more = v1, v0
+						}
+						r.Violation(Case{Kind: "mono-v4", Key: "v4.0/Score/decreases-on-" + spec.V4MetricNames[m] + "@first-calls-of-process",
+							Expected: "the more severe of the two vectors scores at least as much", Observed: fmt.Sprintf("Score(%s)=%.1f, Score(%s)=%.1f as the first scoring calls of a fresh process", v0, float64(k0)/10, v1, float64(k1)/10),
+							Args:     map[string]any{"less": less, "more": more}}, nil)
+					}
+				}
+			}
+		}
+	}
 	// v4
 	table := make(V4Table, spec.V4NumClasses)
 	SweepV4(r, "C12", table, false)
